@@ -85,6 +85,8 @@ func runByz(e *Env) {
 	tp := k.Tape
 	cl := node.NewCluster(k, 1)
 	InstallHooks(k)
+	extraScalars = true
+	defer func() { extraScalars = false }()
 	var ms0 runtime.MemStats
 	runtime.ReadMemStats(&ms0)
 
@@ -98,6 +100,8 @@ func runByz(e *Env) {
 	e.Note("control", ctrl)
 	e.Note("auth", auth)
 	e.Note("compress", compress)
+	garbageCells := !e.NoFaults && tp.Chance(1, 3)
+	e.Note("garbageCells", garbageCells)
 
 	cfg := BaseConfig(cl, "10.0.0.1")
 	if !ctrl {
@@ -181,6 +185,26 @@ func runByz(e *Env) {
 					continue
 				}
 				v, b := genValue(tp, c.t, proto)
+				if garbageCells && tp.Chance(1, 3) {
+					// a well-framed cell whose bytes are not a value of its type
+					switch tp.Next(4) {
+					case 0:
+						b = b[:tp.Next(len(b)+1)]
+					case 1:
+						b = append(append([]byte{}, b...), byte(tp.Next(256)), 0xff)
+					case 2:
+						if len(b) > 0 {
+							b = append([]byte{}, b...)
+							b[tp.Next(len(b))] ^= byte(1 + tp.Next(255))
+						}
+					default:
+						b = make([]byte, tp.Next(6))
+						for i := range b {
+							b[i] = byte(tp.Next(256))
+						}
+					}
+					k.Fault("byz.garbage-cell")
+				}
 				row = append(row, wireCell{val: v, bytes: b})
 			}
 			r.rows = append(r.rows, row)
